@@ -763,12 +763,14 @@ def replay(ctx, data):
 LEVEL_TEXT = ('Machine-checked proof (Coq 8.16.1) over a model re-translated from /repo on every run: for every int declaration (size, unsigned, min, max) Pony accepts and every '
               'integer v, IntConverter.validate accepts v (unchanged) iff v satisfies the declared bounds (zero included) and the range of the declared size/signedness, else raises ValueError '
               '(C08_int_declaration, C08_int, C08_int_reject); the same for float (all non-NaN values, C08_float), Decimal (C08_decimal), str (autostrip + max_len, with a proved '
-              'characterisation of strip()), and for None/empty/required/nullable/py_check handling of Attribute.validate / Required.validate over any converter (C08_optional, C08_required, C08_required_int). '
-              'Remaining defects of the code: max_len = 0 means "no limit" (C08_str_except_known holds on the exact complement, witness in Findings/C08.v) and float NaN passes any bounds (witness). '
+              'characterisation of strip()), for None/empty/required/nullable/py_check handling of Attribute.validate / Required.validate over any converter (C08_optional, C08_required, C08_required_int), '
+              'the declared TYPE per converter (C08_declared_type: a finite table interpreted from each validate on one representative value per Python type, proved equal to the documented coercions), '
+              'Decimal(precision, scale) declarations (C08_decimal_declaration), assignment in any prior state and the creation/set/get/filter entry points (C08_assignment_*, C08_entry_points_validate: call sites scanned). '
+              'Remaining defects of the code (witnesses in Findings/C08.v): max_len = 0 means "no limit", float NaN passes any bounds, bool attributes accept any value (bool(val)), Decimal precision/scale are never compared with the value. '
               'The int/float zero-bound defect found by this check was repaired in /repo (2abc421); the unrestricted theorems compute the defect flags to false from the regenerated translation, so a regression breaks them.')
 LEVEL_NOTE = ('Trusted: Coq kernel + vm_compute; the py2coq translator (cross-checked against the real classes on every run: ~10^4 (declaration, value) pairs, each also driven through '
               'Entity(...), assignment, set(), get() on SQLite); the hand-written composition of Attribute/Required.validate (correspondence-checked); the value abstraction '
               '(floats/Decimals as exact rationals, strings as code points). Not modelled: conversion of foreign input types (int("12"), float(Decimal) ...), DEFAULT handling, relationships, '
-              'Discriminator, composite keys, Decimal precision/scale (not enforced by validate at all; see C07).')
+              'Discriminator, composite keys. The type theorem is about ONE representative per Python type (isinstance dispatch is uniform over a type; the text parsers str2date/int()/... are only sampled).')
 TECHNIQUE = 'Coq proof (case analysis + lia) over a model regenerated from source by py2coq; vm_compute correspondence with the real converters; exhaustive boundary-grid differential search through four entry points'
 DESIGN_REF = 'DESIGN.md section 5, C08'
